@@ -1,32 +1,43 @@
-(* NoSilentSpec — what C02 demands, stated on the INPUTS of the two mirrors
-   (the file system and the command line for Model.Includes; what lifting and
-   the stages outside the mirrors produce for Model.Runner), not on the report
-   collection: that the error report exists in the project handed to the runner
-   is what the theorems of props/C02.v derive.
+(* NoSilentSpec — what C02 demands, stated on the INPUTS of the mirrors (the
+   file system and the command line for Model.Includes; what the parser yields
+   for the files that were read — version pragma, main component, the syntax
+   trees of the definitions — for Model.FrontStages, Model.Desugar,
+   Model.LiftFull, Model.PipelineMirrors), not on the report collection: that
+   the error report exists in the project handed to the runner, with error
+   level and a location that passes the file filter, is what the theorems of
+   props/C02.v derive.
 
    [failure_event c r]: failure class [c] of the property text occurs, and [r]
    is the report the pipeline makes of it.  Per class the event is
 
    * MissingFile, UnreadableFile, SyntaxError, UnresolvedInclude — an event of
      the file system / of `open_file` + `parser_logic::parse_file`, the inputs
-     of Model.Includes: a named path (or an entry of a named directory) that
-     `fs::canonicalize` rejects; a file reached from the named ones whose
-     content cannot be read; a named file that does not parse; an include
-     statement of a named file that resolves nowhere.  [r] is what
-     errors.rs makes of the model's report (Model.Front.report_of); nothing
-     is assumed about the report collection.
-   * DuplicateParameter, LiftFailure — the event of Model.Runner's input: the
-     `Err(report)` of `generate_cfg` for a definition that lives in a named
-     file ([d_err]); that it is error level and where it is located is
-     observed (injection matrix).
-   * BadPragma, SeveralMains, InvalidTupleOrAnonymous, DuplicateDefinition —
-     produced by stages neither mirror covers (check_compiler_version, the
-     main-component match of parse_files, syntax_sugar_remover,
-     ProgramArchive::new): the report is a member of [others]; observed. *)
-From Coq Require Import ZArith.
+     of Model.Includes (second pass; unchanged).
+   * BadPragma — a file reached from the named ones that parses and whose
+     `pragma circom` names a version `check_compiler_version` rejects
+     ([version_supported] = false against `config::COMPILER_VERSION`).
+   * SeveralMains — two different files reached from the named ones that parse
+     and both have a `component main`.
+   * InvalidTupleOrAnonymous — a template (function) of a named file that the
+     desugarer rejects: `desugar_template` of C18's mirror answers [DErr r0]
+     (`check_function` answers with reports, [r0] one of them).
+   * DuplicateParameter — a definition of a named file, handed to the runner,
+     whose body is a block and whose parameter list names a parameter twice.
+   * LiftFailure — a definition of a named file, handed to the runner, for
+     which the mirrors of `into_cfg` / `into_ssa` answer with
+     InvalidVariableNameError / UndefinedVariableError ([lift_outcome]).  The
+     mirrors return these error values without the file id they carry; it is
+     the parameter [err_file], and the event asks that it is absent or the
+     file of the definition (DerivedUpToLocation).
+   * DuplicateDefinition — produced by ProgramArchive::new, which no mirror
+     covers: the report is a member of [rest]; level and location are part of
+     the event (Assumed; covered by the injection matrix only). *)
+From Coq Require Import ZArith NArith String.
 Require Import Gen.Category Model.Runner Spec.RunnerSpec.
 From stdpp Require Import list.
 Require Import Model.Includes Model.Front Spec.IncludesSpec.
+Require Model.Ast Model.Desugar Model.LiftFull Model.PipelineMirrors Spec.ExpandSpec.
+Require Import Model.FrontStages.
 
 Inductive failure_class :=
 | MissingFile | UnreadableFile | SyntaxError | UnresolvedInclude
@@ -34,38 +45,61 @@ Inductive failure_class :=
 | BadPragma | SeveralMains | InvalidTupleOrAnonymous | DuplicateDefinition.
 
 (* which mirror produces the report of a class *)
-Inductive producer := ByIncludes | ByLift | ByOtherStage.
+Inductive producer :=
+| ByIncludes          (* Model.Includes + Model.Front *)
+| ByVersionCheck      (* Model.FrontStages.check_compiler_version *)
+| ByMainMatch         (* Model.FrontStages.main_items *)
+| ByDesugarer         (* Model.Desugar through Model.FrontStages.sugar_items *)
+| ByLifter            (* Model.LiftFull / Model.PipelineMirrors through Model.FrontStages.stage_def *)
+| ByOtherStage.       (* no mirror: ProgramArchive::new *)
 Definition class_producer (c : failure_class) : producer :=
   match c with
   | MissingFile | UnreadableFile | SyntaxError | UnresolvedInclude => ByIncludes
-  | DuplicateParameter | LiftFailure => ByLift
-  | BadPragma | SeveralMains | InvalidTupleOrAnonymous | DuplicateDefinition => ByOtherStage
+  | BadPragma => ByVersionCheck
+  | SeveralMains => ByMainMatch
+  | InvalidTupleOrAnonymous => ByDesugarer
+  | DuplicateParameter | LiftFailure => ByLifter
+  | DuplicateDefinition => ByOtherStage
   end.
 
-(* the form in which [failure_event] (below) states the report of a class: what
-   Model.Front makes of an OS / parse / include error of Model.Includes, the
-   `Err` of a definition of a named file, a member of [others] without primary
-   label / with a primary label in a named file
+(* how much of "the report exists, is error level, passes the file filter" is
+   derived from the event *)
+Inductive derivation :=
+| Derived                 (* all of it: the event says nothing about the report but what errors.rs makes of the failure *)
+| DerivedUpToLocation     (* existence, level and code derived; the file id inside the error value is a hypothesis *)
+| Assumed.                (* the event contains the report, its level and its location *)
+Definition class_derivation (c : failure_class) : derivation :=
+  match c with
+  | LiftFailure => DerivedUpToLocation
+  | DuplicateDefinition => Assumed
+  | _ => Derived
+  end.
+
+(* the form in which [failure_event] (below) states the report of a class
    (Proofs.NoSilentProofs.failure_event_shape).  The class-table check of
    lib/props/C02.py reads [class_table] through the extracted driver
    (`model_front classes`) and looks for a report of that form in the ground
-   truth of every unconditional injection. *)
+   truth of every injection it checks. *)
 Inductive report_shape :=
-| ShOsError | ShParseError | ShIncludeError | ShLiftError | ShOtherUnlabelled | ShOtherInNamedFile.
+| ShOsError | ShParseError | ShIncludeError
+| ShVersionError | ShMultipleMain | ShSugarError | ShParamCollision | ShLiftError | ShOtherInNamedFile.
 Definition class_shape (c : failure_class) : report_shape :=
   match c with
   | MissingFile | UnreadableFile => ShOsError
   | SyntaxError => ShParseError
   | UnresolvedInclude => ShIncludeError
-  | DuplicateParameter | LiftFailure => ShLiftError
-  | BadPragma | SeveralMains => ShOtherUnlabelled
-  | InvalidTupleOrAnonymous | DuplicateDefinition => ShOtherInNamedFile
+  | BadPragma => ShVersionError
+  | SeveralMains => ShMultipleMain
+  | InvalidTupleOrAnonymous => ShSugarError
+  | DuplicateParameter => ShParamCollision
+  | LiftFailure => ShLiftError
+  | DuplicateDefinition => ShOtherInNamedFile
   end.
 Definition all_classes : list failure_class :=
   [ MissingFile; UnreadableFile; SyntaxError; UnresolvedInclude; DuplicateParameter; LiftFailure;
     BadPragma; SeveralMains; InvalidTupleOrAnonymous; DuplicateDefinition ].
-Definition class_table : list (failure_class * producer * report_shape) :=
-  map (fun c => (c, class_producer c, class_shape c)) all_classes.
+Definition class_table : list (failure_class * producer * derivation * report_shape) :=
+  map (fun c => (c, class_producer c, class_derivation c, class_shape c)) all_classes.
 
 Section NoSilentSpec.
   Context {path : Type}.
@@ -84,10 +118,27 @@ Section NoSilentSpec.
   Variable pf_id pf_name : Z.
   Variable payload : Includes.report (path:=path) -> Z.
 
+  (* the parameters of Model.FrontStages *)
+  Variable pragma : path -> option version.
+  Variable has_main : path -> bool.
+  Variable cv : version.
+  Variable cs : codes.
+  Variable spay : stage_item path -> Z.
+  Variable ord : nat -> list nat -> list nat.
+  Variable horder : list nat -> list nat.
+  Variable prime : Z.
+  Variable kv kd : nat.
+  Variable err_file : PM.definition -> option N.
+  Variable name_id : string -> Z.
+  Variable after : PM.definition -> def.
+
   Notation named := (named canon is_dir read_dir join ext_circom).
   Notation resolves := (resolves canon is_file join parent file_name starts_dot has_sep).
   Notation reachable := (reachable canon is_file join parent file_name starts_dot has_sep content).
   Notation report_of := (report_of pf_id pf_name payload).
+  Notation item_report := (item_report pf_id pf_name cs spay).
+  Notation lift_outcome := (lift_outcome ord horder prime kv kd).
+  Notation parses := (parses content).
 
   (* the path [q] is what the command-line path [p] (or an entry of the named
      directory [p], with the .circom suffix) stands for, and it cannot be
@@ -100,11 +151,20 @@ Section NoSilentSpec.
       is_dir p = true -> read_dir p = Some names -> n ∈ names -> fails_to_open false (join p n) q ->
       fails_to_open named p q.
 
+  (* every meta of the body lies in the file [fid] *)
+  Definition body_in_file (fid : N) (b : Ast.statement) : Prop :=
+    Forall (fun m => Ast.m_file m = Some fid) (ExpandSpec.stmt_metas b).
+
   Section Event.
     Variable argv libs : list path.
     Variable s : parse_state (path:=path).
-    Variable others : list Runner.report.
-    Variable defs : list def.
+    (* what the parser and TemplateLibrary::new / ProgramArchive::new make of the files that were read: the
+       definitions with their syntax trees and the line tables of the files; [sd] is what the desugarer
+       answers for it (the theorems carry the hypothesis [sugar_input pr = DOk sd]) *)
+    Variable pr : PM.program.
+    Variable sd : Desugar.desugared.
+    (* the reports of the stages no mirror covers *)
+    Variable rest : list Runner.report.
 
     Definition the_libraries : list library := (add_libraries canon is_dir ext_circom libs []).1.
 
@@ -115,6 +175,13 @@ Section NoSilentSpec.
     (* the report has no primary label, or one in a named file *)
     Definition not_in_included_only (r : Runner.report) : Prop :=
       r_pfiles r = [] \/ exists z, In z (r_pfiles r) /\ file_is_named z.
+
+    (* the definition record (TemplateData / FunctionData) belongs to a named file *)
+    Definition def_in_named_file (dd : PM.definition) : Prop :=
+      exists fid, PM.d_pfile dd = Some fid /\ file_is_named (Z.of_N fid).
+
+    Definition the_templates : list (string * Ast.statement) := PM.named_bodies (PM.pr_templates pr).
+    Definition the_functions : list (string * Ast.statement) := PM.named_bodies (PM.pr_functions pr).
 
     Definition failure_event (c : failure_class) (r : Runner.report) : Prop :=
       match c with
@@ -131,13 +198,37 @@ Section NoSilentSpec.
             named argv f /\ content f = Parsed incs /\ (p, a, b) ∈ incs /\
             resolves f the_libraries p None /\ ps_files s !! i = Some (f, u) /\
             r = report_of (IncludeError p (Some i) a b)
-      | DuplicateParameter | LiftFailure =>
-          r_level r = Error /\ not_in_included_only r /\
-          exists d, In d defs /\ file_is_named (d_file d) /\ d_err d = Some r
-      | BadPragma | SeveralMains =>
-          r_level r = Error /\ In r others /\ r_pfiles r = []
-      | InvalidTupleOrAnonymous | DuplicateDefinition =>
-          r_level r = Error /\ In r others /\ exists z, In z (r_pfiles r) /\ file_is_named z
+      | BadPragma =>
+          exists f incs v,
+            reachable (named argv) the_libraries f /\ content f = Parsed incs /\
+            pragma f = Some v /\ version_supported v cv = false /\
+            r = item_report (SIVersionError f v)
+      | SeveralMains =>
+          exists f g,
+            f <> g /\ reachable (named argv) the_libraries f /\ reachable (named argv) the_libraries g /\
+            parses f = true /\ parses g = true /\ has_main f = true /\ has_main g = true /\
+            r = item_report SIMultipleMain
+      | InvalidTupleOrAnonymous =>
+          exists n body fid r0,
+            ((In (n, body) the_templates /\
+              Desugar.desugar_template (Desugar.env_of the_templates) (PM.pr_lib pr) body = Desugar.DErr r0) \/
+             (In (n, body) the_functions /\
+              exists rs, Desugar.check_function body = Desugar.DOk (Some rs) /\ In r0 rs)) /\
+            body_in_file fid body /\ file_is_named (Z.of_N fid) /\
+            r = item_report (SISugar r0)
+      | DuplicateParameter =>
+          exists dd,
+            In dd (handed_on pr sd) /\ def_in_named_file dd /\
+            LiftFull.is_block (PM.d_body dd) = true /\ ~ List.NoDup (PM.d_params dd) /\
+            r = item_report (SILiftError dd LEParamCollision (PM.d_pfile dd))
+      | LiftFailure =>
+          exists dd e,
+            In dd (handed_on pr sd) /\ def_in_named_file dd /\
+            lift_outcome dd = Some e /\ e <> LEParamCollision /\
+            (err_file dd = None \/ err_file dd = PM.d_pfile dd) /\
+            r = item_report (SILiftError dd e (err_file dd))
+      | DuplicateDefinition =>
+          r_level r = Error /\ In r rest /\ exists z, In z (r_pfiles r) /\ file_is_named z
       end.
 
     (* every file the command line stands for was opened, read and parsed, and
@@ -149,5 +240,17 @@ Section NoSilentSpec.
          exists incs, content f = Parsed incs /\
            forall p a b, (p, a, b) ∈ incs ->
              exists c, resolves f the_libraries p (Some c) /\ c ∈ ps_read s).
+
+    (* every file that was reached asks for a supported version (or none), at most one of them has a main
+       component, and the desugarer hands on every template and function of the named files *)
+    Definition all_stages_passed : Prop :=
+      (forall f incs v, reachable (named argv) the_libraries f -> content f = Parsed incs ->
+                        pragma f = Some v -> version_supported v cv = true) /\
+      (forall f g, reachable (named argv) the_libraries f -> reachable (named argv) the_libraries g ->
+                   parses f = true -> parses g = true -> has_main f = true -> has_main g = true -> f = g) /\
+      (forall n body fid, In (n, body) the_templates -> body_in_file fid body -> file_is_named (Z.of_N fid) ->
+                          In n (map fst (Desugar.d_templates sd))) /\
+      (forall n body fid, In (n, body) the_functions -> body_in_file fid body -> file_is_named (Z.of_N fid) ->
+                          In n (map fst (Desugar.d_functions sd))).
   End Event.
 End NoSilentSpec.
